@@ -418,13 +418,36 @@ def coerce_hint_any(hint: Hint) -> Hint:
         #FIXME: [SPEED] Globalize the
         #_hint_repr_to_hint.cache_or_get_cached_value() bound method and call
         #that globalized bound method here instead as a negligible speedup.
-        hint = _hint_repr_to_hint.cache_or_get_cached_value(  # type: ignore[return-value]
+        hint_cached = _hint_repr_to_hint.cache_or_get_cached_value(
             key=get_hint_repr(hint), value=hint)
+
+        # If the previously cached copy is either this hint itself *OR* equal
+        # to this hint, replace this hint by that copy. Else, that copy merely
+        # shares its machine-readable representation with this hint (e.g., two
+        # "list[Annotated[int, Is[lambda x: x > k]]]" hints closing over
+        # different values of "k"). Representations are *NOT* injective; in
+        # this case, this hint is preserved as is rather than being silently
+        # replaced by a semantically different hint.
+        if hint_cached is hint or _is_hints_equal(hint_cached, hint):
+            hint = hint_cached  # type: ignore[assignment]
     # Else, this hint is (hopefully) self-caching.
 
     # ..................{ RETURN                             }..................
     # Return this possibly coerced hint.
     return hint
+
+# ....................{ PRIVATE ~ testers                  }....................
+def _is_hints_equal(hint_a: object, hint_b: object) -> bool:
+    '''
+    :data:`True` only if the two passed hints compare equal, where a comparison
+    raising an exception (e.g., due to a child object overriding the ``__eq__``
+    dunder method to return a non-boolean) is treated as inequality.
+    '''
+
+    try:
+        return bool(hint_a == hint_b)
+    except Exception:
+        return False
 
 # ....................{ PRIVATE ~ mappings                 }....................
 _hint_repr_to_hint = CacheUnboundedStrong()
